@@ -74,6 +74,13 @@ CHECKS = {
              "read back through its own class / family base / a wrong class, written again and read again, comparing a projection of everything the statement lists; containers and fits are reloaded in the middle of ErrorModel / FitCache histories and every later observation "
              "is compared with the exact ideal (containers) or with the original object receiving the same later calls (fits).",
         note="Trusted: TLC, harness/adapters/fileio.py (catalogue, projections; 1e-9 for unfitted objects, 1e-3 for quantities that went through a minimizer), harness/adapters/errormodel.py. Model functions must be self-contained source text (documented form). CustomFit is not covered."),
+    "C19": dict(
+        category="model_checking", design_ref="DESIGN.md 5/C19",
+        technique="rejecting actions of the TLA+ specs Nexus.tla, HistFill.tla, ErrorModel.tla and FitCache.tla with the action property RejectLeavesUnchanged checked by TLC; every history with a malformed call at some position replayed on the real objects (the call must raise; every later observation must equal the prediction as if it had not been made); plus one-shot constructor-level malformed specifications",
+        text="Malformed variants are enumerated from the valid call: size off, a negative entry, correlation above 1 or negative, non-unit correlation diagonal, wrong matrix size, unknown axis / source / parameter names, duplicate names, "
+             "non-symmetric / wrongly shaped / length-mismatched constraint matrices, wrong-length parameter lists, limits without bounds, Poisson data that is negative or fractional, wrong container type, unsorted bin edges, wrong number of bin heights, "
+             "cycle-closing and unknown graph dependencies, assignments to function / alias nodes. TLC proves on the models that a rejected call changes nothing; the replay shows the code raises and that all later reads are unaffected.",
+        note="Trusted: TLC and the adapters of C02/C03/C04/C12. Exception types are not compared. Reserved model-parameter names, unknown cost identifiers etc. are constructor-level and checked once each."),
 }
 NOT_APPLICABLE = {
     "C16": "Pure real-valued special-function identity (chi2 CDF and its inverse): no state or transitions, and TLC has neither reals nor exp; "
